@@ -55,7 +55,7 @@ static void add_op(struct xcmd c, int red)
 
 static void build_ops(void)
 {
-	struct { int naddr; struct xaddr a1, a2; int sep; int red; } af[48];
+	struct { int naddr; struct xaddr a1, a2; int sep; int red; } af[56];
 	int naf = 0, i, j;
 	struct xaddr none = A(XA_NONE, 0, 0, NULL, 0, 0, 0);
 #define AF1(x, r) do { af[naf].naddr = 1; af[naf].a1 = (x); af[naf].a2 = none; af[naf].sep = ','; af[naf].red = r; naf++; } while (0)
@@ -73,6 +73,8 @@ static void build_ops(void)
 	AF1(A(XA_FWD, 0, 0, "ax", 0, 0, 0), 1);
 	AF1(A(XA_BWD, 0, 0, "ax", 0, 0, 0), 0);
 	AF1(A(XA_FWD, 0, 0, "zz", 0, 0, 0), 0);
+	AF1(A(XA_FWD, 0, 0, "", 0, 0, 0), 1);		/* the empty pattern: the remembered one, in the direction of the delimiters */
+	AF1(A(XA_BWD, 0, 0, "", 0, 0, 0), 1);
 	AF1(A(XA_FWD, 0, 0, "ax", 1, 0, 1), 0);
 	AF1(A(XA_DOT, 0, 0, NULL, 1, 0, 1), 0);
 	AF1(A(XA_DOLLAR, 0, 0, NULL, 1, 0, -1), 0);
@@ -233,9 +235,11 @@ static void pre_state(void)
 		pre_model = model;
 		model_rejected = refex_exec(&model, &ops[k], filetext);
 		if (model_rejected) {
-			int c = model.cur;
+			struct xm after = model;
 			model = pre_model;
-			model.cur = c;		/* the effect of ';' stays */
+			model.cur = after.cur;		/* the effect of ';' stays */
+			memcpy(model.lastpat, after.lastpat, sizeof(model.lastpat));	/* and so does the remembered pattern */
+			model.has_lastpat = after.has_lastpat;
 		}
 		state_bad = compare_state(opname[k]);
 		if (state_bad) {
